@@ -2,6 +2,7 @@ import Pyunicorn.Model.Proto
 import Pyunicorn.Model.Cross
 import Pyunicorn.Model.CrossBetw
 import Pyunicorn.Model.CrossCCN
+import Pyunicorn.Model.CrossISRN
 /-! Line-protocol driver for C11.
 
 Request: `<measure> <directed 0/1> <N> <A> <w> <D> <LA> <L1> <L2> [<norm>]`
@@ -277,6 +278,30 @@ def ccnAnswer (dir n1 n a d dw g s : String) : String :=
       (if !betwAssertHolds directed N A then "raise:AssertionError"
        else pairRats (CrossCCN.internalBetweenness2 A N1 N))] "|"
 
+/-- round 5: `isrn <N_x> <N> <R_x> <CR_xy> <R_y>`: the adjacency matrix of an
+`InterSystemRecurrenceNetwork` assembled from its three recurrence matrices
+(model `Pyunicorn.CrossISRN`), its four wrappers, the cross recurrence rate -/
+def isrnAnswer (nx n rx cxy ry : String) : String :=
+  let Nx := nx.toNat!
+  let N := n.toNat!
+  let Rx : Nat → Nat → Bool := matFn (boolMat rx) false
+  let Cxy : Nat → Nat → Bool := matFn (boolMat cxy) false
+  let Ry : Nat → Nat → Bool := matFn (boolMat ry) false
+  let A0 := CrossISRN.adjacency Rx Cxy Ry Nx N
+  let tab := blockN A0 (List.range N) (List.range N)
+  let A : Adj := matFn (tab.map fun r => r.map (· != 0)) false
+  join [
+    "adjacency=" ++ showNatMat tab,
+    "cross_global_clustering_xy=" ++ showOpt "nan" (CrossISRN.crossGlobalClusteringXY A Nx N),
+    "cross_global_clustering_yx=" ++ showOpt "nan" (CrossISRN.crossGlobalClusteringYX A Nx N),
+    "cross_transitivity_xy=" ++ showRat (CrossISRN.crossTransitivityXY A Nx N),
+    "cross_transitivity_yx=" ++ showRat (CrossISRN.crossTransitivityYX A Nx N),
+    "cross_recurrence_rate=" ++
+      showOpt "raise:ZeroDivisionError" (CrossISRN.crossRecurrenceRate Cxy Nx (N - Nx)),
+    "cross_link_density_xy=" ++ showOpt "raise:ZeroDivisionError"
+      (crossLinkDensity A (CrossCCN.nodes1 Nx) (CrossCCN.nodes2 Nx N)),
+    "n_links=" ++ toString (netNLinks false N A)] "|"
+
 /-- `all …` answers every measure at once: `name=value|name=value|…` -/
 def answer (toks : List String) : String :=
   match toks with
@@ -285,6 +310,7 @@ def answer (toks : List String) : String :=
   | ["net", dir, n, a, w, d] => netAnswer dir n a w d
   | ["net", dir, n, a, w, d, dw] => netAnswer dir n a w d dw
   | ["ccn", dir, n1, n, a, d, dw, g, s] => ccnAnswer dir n1 n a d dw g s
+  | ["isrn", nx, n, rx, cxy, ry] => isrnAnswer nx n rx cxy ry
   | ["normprod", m, ks] => normProdAnswer m ks
   | ["sumw", m, xs] => toString (sumW m.toInt! ((splitTok xs ",").map fun t => t.toInt!))
   | _ => measureOf toks
